@@ -786,7 +786,10 @@ def build_T8k(tree):
     unchanged); bridges in Proofs/SegReadTie.lean."""
     import os
     fn = find_func(tree, 'Segmentation._get_segment_remap_values')
-    body = [_RemapReturns().visit(copy.deepcopy(s)) for s in strip_doc(fn.body)]
+    rv_body = strip_doc(fn.body)
+    if rv_body and isinstance(rv_body[0], ast.If) and 'np.unique(segment_numbers)' in _norm(rv_body[0].test):
+        rv_body = rv_body[1:]          # the check for repeated numbers is T8p's
+    body = [_RemapReturns().visit(copy.deepcopy(s)) for s in rv_body]
     for s in body:
         ast.fix_missing_locations(s)
     t1 = translate_block(body, 'remapKind', [('combine_segments', 'bool'), ('relabel', 'bool')],
@@ -958,30 +961,37 @@ TARGETS['T8n'] = {'file': 'seg/sop.py', 'build': build_T8n, 'imports': ['HdVerif
 
 
 def build_T8p(tree):
-    """Validation of the requested segment numbers at the head of `_get_pixels_by_seg_frame`: every number must be one the
-    object describes, and no number may be requested twice.  `np.all(np.isin(segment_numbers, self.segment_numbers))`,
+    """Validation of the requested segment numbers: no number may be requested twice — tested by `_get_segment_remap_values`,
+    which every read entry point calls with the caller's `segment_numbers` before any query is opened (T8k checks that call in
+    all five) — and every number must be one the object describes — tested at the head of `_get_pixels_by_seg_frame`, before
+    the output value / dtype head (T8b).  `np.all(np.isin(segment_numbers, self.segment_numbers))`,
     `len(np.unique(segment_numbers))` and `len(segment_numbers)` are parameters (computed by the model: `List.all … contains`,
-    `(uniq segs).length`, `segs.length`).  Both checks must come before the output value / dtype head (T8b)."""
+    `(uniq segs).length`, `segs.length`)."""
     fn = _seg_frame(tree)
     known = _top_if(fn, lambda t: 'np.isin(segment_numbers,self.segment_numbers)' in t, 'check of the requested numbers against the described ones')
-    dup = _top_if(fn, lambda t: 'np.unique(segment_numbers)' in t, 'check for repeated segment numbers')
     i_max = _top_if(fn, lambda t: t == 'combine_segments', '`if combine_segments:` (max_output_val)')
-    if not (fn.body.index(known) < fn.body.index(i_max) and fn.body.index(dup) < fn.body.index(i_max)):
+    if not fn.body.index(known) < fn.body.index(i_max):
         raise Unsupported('the validation of segment_numbers no longer precedes the output-value head')
-    for s in (known, dup):
-        if s.orelse or not (len(s.body) == 1 and isinstance(s.body[0], ast.Raise)):
-            raise Unsupported('validation of segment_numbers is no longer `if …: raise …`')
-    stmts = [copy.deepcopy(known), copy.deepcopy(dup), ast.parse('return len(segment_numbers)').body[0]]
-    for s in stmts:
-        ast.fix_missing_locations(s)
+    rv = find_func(tree, 'Segmentation._get_segment_remap_values')
+    rbody = strip_doc(rv.body)
+    if not (rbody and isinstance(rbody[0], ast.If) and 'np.unique(segment_numbers)' in _norm(rbody[0].test)):
+        raise Unsupported('_get_segment_remap_values no longer starts with the check for repeated segment numbers '
+                          '(it must come before any query: the UNIQUE constraint of the temporary channel table fires otherwise)')
+    dup = rbody[0]
+    for s_ in (known, dup):
+        if s_.orelse or not (len(s_.body) == 1 and isinstance(s_.body[0], ast.Raise) and 'ValueError' in ast.unparse(s_.body[0])):
+            raise Unsupported('validation of segment_numbers is no longer `if …: raise ValueError(…)`')
+    stmts = [copy.deepcopy(dup), copy.deepcopy(known), ast.parse('return len(segment_numbers)').body[0]]
+    for s_ in stmts:
+        ast.fix_missing_locations(s_)
     attrs = {
         'np.all(np.isin(segment_numbers, self.segment_numbers))': ('bool', 'allKnown'),
         'len(np.unique(segment_numbers))': ('int', 'nDistinct'),
         'len(segment_numbers)': ('int', 'nRequested'),
     }
     text = translate_block(stmts, 'requestAdmitted', [], attrs,
-                           doc='head of `_get_pixels_by_seg_frame`: the requested numbers are all described and pairwise '
-                               'different (result = their count)')
+                           doc='`_get_segment_remap_values` (first statement) + head of `_get_pixels_by_seg_frame`: the requested '
+                               'numbers are pairwise different and all described (result = their count)')
     return text, span_sha([known, dup])
 
 
